@@ -115,6 +115,25 @@ fn permissive_bad_jump(p: &str) -> String {
     )
 }
 
+/// Disassemble the given bytes through the public API and compare the re-encoding.
+fn disassemble_roundtrip(p: &str) -> String {
+    let code = hex_param(p, "hex").unwrap_or_else(|| vec![0]);
+    let r = InstructionStream::try_from(code.as_slice());
+    match r {
+        Ok(s) => {
+            let back = s.as_bytecode();
+            format!(
+                "{{\"violates\": {}, \"ok\": true, \"len\": {}, \"entries\": {}, \"code\": \"{}\"}}",
+                back != code || s.len() != code.len(), code.len(), s.len(), hex(&code)
+            )
+        }
+        Err(e) => format!(
+            "{{\"violates\": {}, \"ok\": false, \"error\": \"{}\", \"code\": \"{}\"}}",
+            !code.is_empty(), format!("{e:?}").replace('"', "'"), hex(&code)
+        ),
+    }
+}
+
 fn main() {
     let args: Vec<String> = std::env::args().collect();
     if args.len() < 3 {
@@ -128,6 +147,7 @@ fn main() {
         "fork_first_visit" => fork_first_visit(&p),
         "jump_target_bits" => jump_target_bits(&p),
         "halting_opcode" => halting_opcode(&p),
+        "disassemble_roundtrip" => disassemble_roundtrip(&p),
         "permissive_bad_jump" => permissive_bad_jump(&p),
         _ => "{\"violates\": false, \"outcome\": \"unknown scenario\"}".to_string(),
     });
